@@ -356,3 +356,114 @@ func dependsOnProjection(v ssa.Value, pred func(ssa.Value) bool) bool {
 	}
 	return false
 }
+
+// CTX-SHARE: the lock-bypass privilege lives in the Context; goroutines of one fan-out that share a Context share it.
+func ruleCtxShare(w *World, r *Report) {
+	r.Rule("CTX-SHARE", "goroutines started in a loop that all capture the same *Context (not a per-goroutine SubContext) must not be able to reach a grant of the lock-bypass privilege (Context.grantPrivilege): the privilege is per context, not per goroutine, so while one of them is inside a state hook its siblings skip the state lock", 1)
+	p := findPrivAnchors(w)
+	// functions that can reach a grant (VTA)
+	reaches := map[*ssa.Function]bool{}
+	for f := range p.grant {
+		reaches[f] = true
+	}
+	// the JavaScript engine calls the Env callbacks reflectively: every function literal with the callback signature is a
+	// callee of whatever runs a script
+	var jsCallbacks []*ssa.Function
+	for _, fn := range w.Funcs {
+		if fn.Parent() == nil || isTestFile(w, fn) {
+			continue
+		}
+		ps := fn.Signature.Params()
+		if ps.Len() == 1 && isNamed(ps.At(0).Type(), ottoPath, "FunctionCall") {
+			jsCallbacks = append(jsCallbacks, fn)
+		}
+	}
+	for changed := true; changed; {
+		changed = false
+		for _, fn := range w.Funcs {
+			if reaches[fn] || isTestFile(w, fn) {
+				continue
+			}
+			allInstrs(fn, func(in ssa.Instruction) {
+				if reaches[fn] {
+					return
+				}
+				ci, ok := in.(ssa.CallInstruction)
+				if !ok {
+					return
+				}
+				if o := calleeObj(ci.Common()); o != nil && o.Pkg() != nil && o.Pkg().Path() == ottoPath && (o.Name() == "Run" || o.Name() == "Call") {
+					for _, cb := range jsCallbacks {
+						if reaches[cb] {
+							reaches[fn], changed = true, true
+						}
+					}
+				}
+				if f := ci.Common().StaticCallee(); f != nil {
+					if reaches[f] {
+						reaches[fn], changed = true, true
+					}
+					return
+				}
+				for _, f := range w.Callees(ci) {
+					if reaches[f] {
+						reaches[fn], changed = true, true
+					}
+				}
+			})
+		}
+	}
+	n := 0
+	for _, fn := range w.Funcs {
+		if isTestFile(w, fn) || w.RelPkg(fn) != "core" {
+			continue
+		}
+		allInstrs(fn, func(in ssa.Instruction) {
+			g, ok := in.(*ssa.Go)
+			if !ok || !reachable(fn, in, in) {
+				return
+			}
+			mc, ok := g.Call.Value.(*ssa.MakeClosure)
+			if !ok {
+				return
+			}
+			body := mc.Fn.(*ssa.Function)
+			// a captured *Context that is not re-created between two `go`s
+			shared := false
+			for k, fv := range body.FreeVars {
+				if !isNamed(fv.Type(), modPath+"/core", "Context") && !isPtrToPtrContext(fv.Type()) {
+					continue
+				}
+				if k >= len(mc.Bindings) {
+					continue
+				}
+				b := mc.Bindings[k]
+				if bi, isInstr := b.(ssa.Instruction); isInstr {
+					if h, _ := reach(fn, in, func(z ssa.Instruction) bool { return z == in }, func(z ssa.Instruction) bool { return z == bi }, nil); h == nil {
+						continue // re-created on every iteration
+					}
+				}
+				shared = true
+			}
+			if !shared {
+				return
+			}
+			n++
+			key := "go in " + fname(fn)
+			if reaches[body] {
+				r.violation("CTX-SHARE", key, w.PosOf(in), "the goroutines of this fan-out share one Context and can reach Context.grantPrivilege: a sibling skips the state lock while one of them holds the privilege")
+			} else {
+				r.ok("CTX-SHARE", key, w.PosOf(in), "shared context, but no grant of the privilege is reachable")
+			}
+		})
+	}
+	r.stat("CTX-SHARE.fanouts_sharing_a_context", n)
+}
+
+func isPtrToPtrContext(t types.Type) bool {
+	p, ok := t.(*types.Pointer)
+	if !ok {
+		return false
+	}
+	return isNamed(p.Elem(), modPath+"/core", "Context")
+}
